@@ -45,7 +45,7 @@ func TestC07(t *testing.T) {
 			"unfaulted reference run + map model: reopened LastCommitID and contents equal block b-1 (b when k=n); re-executing block b and "+
 			"every later block gives the reference CommitIDs; final contents equal the model. "+
 			"non-trivial = a crash point strictly between the first substore batch and the commit-info batch (0<k<n)",
-		map[string]float64{"crash-between-substore-saves": 0.9, "crash-in-first-block": 0.1, "crash-in-last-block": 0.1, "crash-block-with-delete": 0.2},
+		map[string]float64{"crash-between-substore-saves": 0.9, "crash-in-first-block": 0.1, "crash-in-last-block": 0.1, "crash-block-with-delete": 0.1},
 		func(rt *rapid.T, c *harness.Case) {
 			nStores := rapid.IntRange(2, 4).Draw(rt, "nStores")
 			nTr := rapid.IntRange(0, 1).Draw(rt, "nTransient")
